@@ -2,6 +2,8 @@ import XalanModel.C12.NodeListProofs
 import XalanModel.C12.StructuralProofs
 import XalanModel.C12.MultiDocProofs
 import XalanModel.C12.AxesProofs
+import XalanModel.C12.WalksProofs
+import XalanModel.Generated.C12_WalkShapes
 /-!
 # C12 — node-sets are duplicate-free sets in one consistent document order
 
@@ -549,33 +551,122 @@ result, in the order found: `sel` with `Valid`. -/
 structure StepSpec where
   axis : Axis
   sel : List Path → List Path
+  /-- namespace axis only: "is a namespace declaration, passes the node test, is not shadowed" -/
+  keep : Path → Bool := fun _ => true
 
 def StepSpec.Valid (s : StepSpec) : Prop := ∀ l, (s.sel l).Sublist l
 
+/-- a step as the list code sees it: the transcribed walk of its axis (`findAxisWalk`), then the predicates -/
 def treeStep (t : Tree) (d : Nat) (s : StepSpec) (ctx : NodeRef) : NList :=
   if h : ctx.idx < t.paths.length then
-    ⟨toRefs t d (s.sel (findAxis t s.axis t.paths[ctx.idx]).1),
-     if (findAxis t s.axis t.paths[ctx.idx]).2 then .reverse else .document⟩
+    ⟨toRefs t d (s.sel (findAxisWalk t s.keep s.axis t.paths[ctx.idx]).1),
+     if (findAxisWalk t s.keep s.axis t.paths[ctx.idx]).2 then .reverse else .document⟩
   else ⟨[], .document⟩
 
-/-- **All 13 axes with arbitrary predicates deliver what `locationPath_sortedSet` assumes.**  child, attribute,
-parent, self, following-sibling (forward) and ancestor, ancestor-or-self, preceding-sibling (reverse) are modelled as
-the pointer walks of XPath.cpp; descendant, descendant-or-self, following, namespace (forward) and preceding (reverse)
-by their definition in the Recommendation as a selection from the document-order walk. -/
+/-! ### the transcribed C++ walks visit exactly the nodes of the Recommendation's definition -/
+
+/-- `XPath::findDescendants` (descendant axis): the `do … while` over `getFirstChild/getNextSibling/getParentOfNode`
+with its three termination tests delivers, for every tree and every context node — element, text, attribute,
+namespace declaration or the document node — exactly the descendants of the context node in document order. -/
+theorem walk_descendant_eq_def (t : Tree) (ctx : Path) (hc : ctx ∈ t.paths) :
+    findDescendantsWalk t ctx false = (findAxis t .descendant ctx).1 :=
+  (walk_descendant_eq_def' t ctx hc).1
+
+/-- the same function with `eFROM_DESCENDANTS_OR_SELF` -/
+theorem walk_descendantOrSelf_eq_def (t : Tree) (ctx : Path) (hc : ctx ∈ t.paths) :
+    findDescendantsWalk t ctx true = (findAxis t .descendantOrSelf ctx).1 :=
+  (walk_descendant_eq_def' t ctx hc).2
+
+/-- `XPath::findFollowing`, including the attribute-context detour through the owner element's first child -/
+theorem walk_following_eq_def (t : Tree) (ctx : Path) (hc : ctx ∈ t.paths) :
+    findFollowingWalk t ctx = (findAxis t .following ctx).1 :=
+  walk_following_eq_def' t ctx hc
+
+/-- `XPath::findPreceeding`: the pre-order walk from the top node to the context node (with the attribute-context
+stop at the owner element and the parent-chain test), reversed; flagged reverse document order -/
+theorem walk_preceding_eq_def (t : Tree) (ctx : Path) (hc : ctx ∈ t.paths) :
+    findPrecedingWalk t ctx = (findAxis t .preceding ctx).1 :=
+  walk_preceding_eq_def' t ctx hc
+
+/-- `XPath::findNamespace`: the `do … while` up the element chain with the attributes taken from the last to the
+first, reversed at the end; `keep` = namespace declaration ∧ node test ∧ not shadowed -/
+theorem walk_namespace_eq_def (t : Tree) (keep : Path → Bool) (ctx : Path) (hc : ctx ∈ t.paths) :
+    findNamespaceWalk t keep ctx = ((findAxis t .namespaces ctx).1).filter keep :=
+  walk_namespace_eq_def' t keep ctx hc
+
+example : [Step.child 1, Step.attr 1] ∈ sampleTree.paths ∧
+    findFollowingWalk sampleTree [Step.child 1, Step.attr 1] =
+      [[Step.child 1, Step.child 0], [Step.child 1, Step.child 1], [Step.child 1, Step.child 1, Step.child 0],
+       [Step.child 1, Step.child 2], [Step.child 2]] := by decide
+
+/-- **The loops transcribed in `Walks.lean` are the loops of the working tree** (translator obligation): the control
+skeletons `translate/c12_walks.py` extracts from XPath.cpp on every run equal the ones the transcription mirrors. -/
+theorem walkShapes_unchanged : XalanModel.Generated.C12.walkShapes = expectedWalkShapes := by rfl
+
+/-- which axis functions flag their result reverse document order (`setReverseDocumentOrder()`) -/
+theorem reverseAxes (t : Tree) (keep : Path → Bool) (a : Axis) (ctx : Path) :
+    (findAxisWalk t keep a ctx).2 =
+      (a == .ancestor || a == .ancestorOrSelf || a == .preceding || a == .precedingSibling) := by
+  cases a <;> simp only [findAxisWalk, findAxis] <;> repeat' (first | rfl | split)
+
+/-- **Positional predicates on reverse axes count in reverse document order.**  `XPath::predicates` numbers the
+nodes of `subQueryResults` in the order the walk left them; for a result flagged reverse that is nearest-first, so
+`axis::node()[k]` — the `k`-th entry of the walk's list — is the `k`-th node *from the end* of the document-ordered
+list the step finally delivers (`stepFinish` re-reverses it).  Over the transcribed walks of all four reverse axes. -/
+theorem reverseAxis_position (t : Tree) (keep : Path → Bool) (a : Axis) (ctx : Path) (k : Nat)
+    (hrev : (findAxisWalk t keep a ctx).2 = true) (hk : 0 < k) (hkl : k ≤ (findAxisWalk t keep a ctx).1.length) :
+    (findAxisWalk t keep a ctx).1[k - 1]? =
+      ((findAxisWalk t keep a ctx).1.reverse)[(findAxisWalk t keep a ctx).1.length - k]? ∧
+    (a = .ancestor ∨ a = .ancestorOrSelf ∨ a = .preceding ∨ a = .precedingSibling) := by
+  constructor
+  · rw [List.getElem?_reverse (by omega)]
+    congr 1; omega
+  · rw [reverseAxes] at hrev
+    cases a <;> simp_all
+
+example : (findAxisWalk sampleTree (fun _ => true) .preceding [Step.child 1, Step.child 2]).1[0]? =
+    some [Step.child 1, Step.child 1, Step.child 0] := by decide
+
+/-- **All 13 axes — as the transcribed walks — with arbitrary predicates deliver what `locationPath_sortedSet`
+assumes.** -/
 theorem steps_sorted (env : Env) (hdn : env.docNodeFirst = true) (t : Tree) (d : Nat) (s : StepSpec) (hv : s.Valid)
     (ctx : NodeRef) : AxisResult env d (treeStep t d s ctx) := by
   unfold treeStep
   split
   · rename_i h
-    have hs := findAxis_sorted t s.axis t.paths[ctx.idx] (List.getElem_mem h)
-    have hsub := hv (findAxis t s.axis t.paths[ctx.idx]).1
+    have hc : t.paths[ctx.idx] ∈ t.paths := List.getElem_mem h
+    -- the walk is the definition-shaped axis result, up to the namespace selection
+    have hw : ∃ l, l.Sublist (findAxis t s.axis t.paths[ctx.idx]).1 ∧
+        findAxisWalk t s.keep s.axis t.paths[ctx.idx] = (l, (findAxis t s.axis t.paths[ctx.idx]).2) := by
+      cases hax : s.axis with
+      | descendant => exact ⟨_, List.Sublist.refl _, by simp [findAxisWalk, walk_descendant_eq_def t _ hc, findAxis]⟩
+      | descendantOrSelf =>
+        exact ⟨_, List.Sublist.refl _, by simp [findAxisWalk, walk_descendantOrSelf_eq_def t _ hc, findAxis]⟩
+      | following => exact ⟨_, List.Sublist.refl _, by simp [findAxisWalk, walk_following_eq_def t _ hc, findAxis]⟩
+      | preceding => exact ⟨_, List.Sublist.refl _, by simp [findAxisWalk, walk_preceding_eq_def t _ hc, findAxis]⟩
+      | namespaces =>
+        refine ⟨((findAxis t .namespaces t.paths[ctx.idx]).1).filter s.keep, List.filter_sublist, ?_⟩
+        simp only [findAxisWalk, walk_namespace_eq_def t _ _ hc]
+        rfl
+      | child => exact ⟨_, List.Sublist.refl _, rfl⟩
+      | attributes => exact ⟨_, List.Sublist.refl _, rfl⟩
+      | parent => exact ⟨_, List.Sublist.refl _, rfl⟩
+      | ancestor => exact ⟨_, List.Sublist.refl _, rfl⟩
+      | followingSibling => exact ⟨_, List.Sublist.refl _, rfl⟩
+      | precedingSibling => exact ⟨_, List.Sublist.refl _, rfl⟩
+      | self => exact ⟨_, List.Sublist.refl _, rfl⟩
+      | ancestorOrSelf => exact ⟨_, List.Sublist.refl _, rfl⟩
+    obtain ⟨l, hlsub, hl⟩ := hw
+    rw [hl]
+    simp only
+    have hs := findAxis_sorted t s.axis t.paths[ctx.idx] hc
+    have hsub := (hv l).trans hlsub
     unfold axisSorted at hs
     by_cases hr : (findAxis t s.axis t.paths[ctx.idx]).2 = true
     · right
       simp only [hr, if_true] at hs ⊢
       refine ⟨trivial, ⟨?_, Or.inl hdn⟩⟩
-      have : (toRefs t d (s.sel (findAxis t s.axis t.paths[ctx.idx]).1)).reverse =
-          toRefs t d (s.sel (findAxis t s.axis t.paths[ctx.idx]).1).reverse := by simp [toRefs]
+      have : (toRefs t d (s.sel l)).reverse = toRefs t d (s.sel l).reverse := by simp [toRefs]
       rw [this]
       exact toRefs_sorted t d _ (fun p hp => hs.1 p (hsub.subset (by simpa using hp))) (hs.2.sublist hsub.reverse)
     · left
@@ -584,8 +675,9 @@ theorem steps_sorted (env : Env) (hdn : env.docNodeFirst = true) (t : Tree) (d :
   · left
     exact ⟨rfl, ⟨⟨by simp, List.Pairwise.nil⟩, Or.inl hdn⟩⟩
 
-/-- … so every location path — any non-empty sequence of steps over the 13 axes with any predicates — on every
-tree, from every context node, delivers a duplicate-free node-set in document order, flagged document order. -/
+/-- … so every location path — any non-empty sequence of steps over the 13 axes, each evaluated by its transcribed
+C++ walk, with any predicates — on every tree, from every context node, delivers a duplicate-free node-set in
+document order, flagged document order. -/
 theorem treeLocationPath_sortedSet (env : Env) (hdn : env.docNodeFirst = true) (t : Tree) (d : Nat)
     (ha : AfterIsIndex env d) (steps : List { s : StepSpec // s.Valid }) (ctx : NodeRef) (hs : steps ≠ [])
     (hc : ctx.doc = d) :
@@ -598,11 +690,12 @@ theorem treeLocationPath_sortedSet (env : Env) (hdn : env.docNodeFirst = true) (
 example : (evalPath { indexedEnv with docNodeFirst := true } (treeAxis sampleTree 0)
     [Axis.child, Axis.child, Axis.ancestor] ⟨0, 0⟩).nodes = [⟨0, 0⟩, ⟨0, 2⟩] := by decide
 
-example : (⟨Axis.descendant, fun l => l.drop 1⟩ : StepSpec).Valid := fun l => List.drop_sublist 1 l
+example : ({ axis := Axis.descendant, sel := fun l => l.drop 1 } : StepSpec).Valid := fun l => List.drop_sublist 1 l
 
 example : (evalPath { indexedEnv with docNodeFirst := true }
     (fun (s : StepSpec) c => treeStep sampleTree 0 s c)
-    [⟨Axis.descendantOrSelf, id⟩, ⟨Axis.child, fun l => l.drop 1⟩, ⟨Axis.preceding, id⟩] ⟨0, 0⟩).nodes =
+    [{ axis := Axis.descendantOrSelf, sel := id }, { axis := Axis.child, sel := fun l => l.drop 1 },
+     { axis := Axis.preceding, sel := id }] ⟨0, 0⟩).nodes =
       [⟨0, 1⟩, ⟨0, 2⟩, ⟨0, 5⟩, ⟨0, 6⟩, ⟨0, 8⟩, ⟨0, 9⟩] := by decide
 
 /-- with `proposed/C12-docnode-first.diff` the document node takes its place at the front (and
